@@ -80,10 +80,12 @@ theorem writeCols_rows (lay : Layout) (n : Nat) (cols : List (List Bytes)) :
   | kline h plus =>
     cases plus with
     | false =>
-      unfold writeCols joinKLine
+      show joinKLine h n cols = _
+      unfold joinKLine
       congr 1
     | true =>
-      unfold writeCols joinKLine
+      show joinKLine h n (cols.take 2 ++ [List.replicate n [43]] ++ cols.drop 2) = _
+      unfold joinKLine
       rw [transposeN_plus, List.map_map]
       congr 1
 
